@@ -575,7 +575,7 @@ func c18Cases(env *core.Env, rng *rand.Rand) []core.Case {
 				}
 			}
 		}
-		starts := []string{"outer/a/b/lnk", "outer/a/b/lnk/below", "outer", "outer/a", "outer/a/b", "outer/a/b/inner", "outer/a/b/inner/c", "outer/a/b/inner/c/d", "outer/a/b/inner/c/d/e", "beside", "beside/x/y",
+		starts := []string{"outer/regex-assembly/932100.ra", "outer/a/b/inner/regex-assembly/932100.ra", "outer/regex-assembly/932100.ra/below", "outer/a/b/lnk", "outer/a/b/lnk/below", "outer", "outer/a", "outer/a/b", "outer/a/b/inner", "outer/a/b/inner/c", "outer/a/b/inner/c/d", "outer/a/b/inner/c/d/e", "beside", "beside/x/y",
 			"outer/rules", "outer/regex-assembly", "outer/regex-assembly/include", "outer/a/b/inner/regex-assembly", "outer/a/nonexistent/deeper", "outer/a/b/inner/c/missing",
 			"outer/a/other", "outer/a/other/z", "", "", "outer/a/b/inner/c/d/e/../../..", "outer/a/b/../b/inner"}
 		c.Start = starts[rng.Intn(len(starts))]
